@@ -58,6 +58,9 @@ SHAPES = {
     "missing-dependency": {"pkg/__init__.py": S("pkg") + "import not_installed_anywhere\nfrom not_installed_anywhere.sub import *\n", "pkg/mod.py": S("pkg.mod") + "from not_installed_anywhere import z\n"},
     "namespace": {"pkg/one.py": S("pkg.one") + "a = 1\n", "pkg/inner/__init__.py": S("pkg.inner"), "pkg/inner/two.py": S("pkg.inner.two") + "b = 2\n"},
     "single-module": {"pkg.py": S("pkg") + "import sys\nsys.path.append('/nonexistent-added-by-analysed-code')\n"},
+    # modules Python can import but a source finder cannot see: a sourceless (byte-code only) dependency, and a sourceless top-level target
+    "sourceless-dependency": {"pkg/__init__.py": S("pkg") + "from legacy import x\nfrom legacy import *\nimport legacy2\n", "legacy.pyc": S("legacy") + "x = 1\n", "legacy2.pyc": S("legacy2") + "y = 2\n"},
+    "sourceless-target": {"pkg.pyc": S("pkg") + "x = 1\n"},
     "main-exits": {"pkg/__init__.py": S("pkg"), "pkg/__main__.py": S("pkg.__main__") + "import sys\nsys.exit(3)\n"},
 }
 BOOL_OPTS = ["submodules", "try_relative_path", "find_stubs_package", "store_source", "resolve_aliases", "resolve_implicit"]
@@ -120,9 +123,19 @@ def run_case(griffe, acc, case):
         if kind in ("A", "CLI"):
             shape = case[1]
             files = {k: v.replace("__SENTINEL_DIR__", repr(sroot)) for k, v in SHAPES[shape].items()}
-            sandbox.write_tree(os.path.join(d, "src"), files)
+            sandbox.write_tree(os.path.join(d, "src"), {k: v for k, v in files.items() if not k.endswith(".pyc")})
             src = os.path.join(d, "src")
-            names = {"pkg", "other", "_pkg", "pkg-stubs"}
+            for rel, text in files.items():
+                if rel.endswith(".pyc"):
+                    import py_compile
+
+                    tmp_src = os.path.join(d, "tmp_" + os.path.basename(rel)[:-1])
+                    with open(tmp_src, "w") as f:
+                        f.write(text)
+                    os.makedirs(os.path.dirname(os.path.join(src, rel)), exist_ok=True)
+                    py_compile.compile(tmp_src, cfile=os.path.join(src, rel), doraise=True)
+                    os.remove(tmp_src)
+            names = {"pkg", "other", "_pkg", "pkg-stubs", "legacy", "legacy2"}
             before = _snapshot()
             cwd = os.getcwd()
             os.chdir(d)
